@@ -47,8 +47,8 @@ theorem table_inv {t : Table α} (h : ReachT t) : t.WF := by
   | forallQ vs _ ih => exact (Table.foldl_quantStep_inputs _ vs _ ih).1
   | derivative vs _ ih => exact (Table.foldl_quantStep_inputs _ vs _ ih).1
 
-/-- diagrams reachable through the public API (substitution is not yet part of this closure: its
-    proxy construction is covered by the correspondence only) -/
+/-- diagrams reachable through the public API (substitution with the documented precondition: no
+    replacement mentions the variable it replaces) -/
 inductive ReachB : Bdd α → Prop where
   | mkConst (v : Bool) : ReachB (Bdd.mkConst v)
   | mkLiteral (x : α) (v : Bool) : ReachB (Bdd.mkLiteral x v)
@@ -60,6 +60,8 @@ inductive ReachB : Bdd α → Prop where
   | existsQ (vs : List α) {b c} : vs.Nodup → ReachB b → Bdd.existsQ vs b = .ok c → ReachB c
   | forallQ (vs : List α) {b c} : vs.Nodup → ReachB b → Bdd.forallQ vs b = .ok c → ReachB c
   | derivative (vs : List α) {b c} : vs.Nodup → ReachB b → Bdd.derivative vs b = .ok c → ReachB c
+  | substitute (m : List (α × Bdd α)) {b c} : (m.map (·.1)).Nodup → (∀ kv ∈ m, ReachB kv.2) → ReachB b →
+      Bdd.substitute m b = .ok c → ReachB c
 
 /-- **the diagram invariant holds after every history**: sorted duplicate-free inputs, as many
     lib-bdd variables as inputs, a truth table of the right size -/
@@ -96,6 +98,12 @@ theorem bdd_inv {b : Bdd α} (h : ReachB b) : b.WF := by
   | derivative vs hvs _ hc ih =>
     obtain ⟨c', hc', hwf, _⟩ := Bdd.derivative_den vs hvs _ ih
     rw [hc] at hc'; cases hc'; exact hwf
+  | substitute m hk _ _ hc ihm ih =>
+    by_cases hself : ∃ kv ∈ m, kv.1 ∈ kv.2.inputs
+    · obtain ⟨site, hp⟩ := (C08.bdd_refuses_iff_self_reference m hk ihm _ ih).mpr hself
+      rw [hc] at hp; cases hp
+    · obtain ⟨c', hc', hwf, _⟩ := C08.bdd_substitute m hk ihm _ ih (fun kv hkv hin => hself ⟨kv, hkv, hin⟩)
+      rw [hc] at hc'; cases hc'; exact hwf
 
 /-- … and none of these operations panics on a reachable diagram (the `expect`s, the `debug_assert!`
     of prune, and lib-bdd's assertions in `set_num_vars` / `rename_variables` never fire) -/
